@@ -1,6 +1,7 @@
 package props
 
 import (
+	"reflect"
 	"encoding/json"
 	"fmt"
 	"strings"
@@ -94,7 +95,7 @@ func C18(c *core.Ctx) {
 	rng := core.NewRng(c.Seed)
 	nSchemas := c.N(30, 500)
 	perSchema := c.N(25, 120)
-	o := gen.Opts{MaxDepth: 3, MaxKids: 4, Defaults: true, MultiKeys: true}
+	o := gen.Opts{MaxDepth: 3, MaxKids: 4, Defaults: true, MultiKeys: true, LeafLists: true, NoZero: true}
 	type pend struct {
 		desc    string
 		impl    string
@@ -114,7 +115,7 @@ func C18(c *core.Ctx) {
 		}
 		for ci := 0; ci < perSchema; ci++ {
 			r := rng.Fork()
-			tgtKind := core.Pick(r, []string{"refstore", "refstore", "reflect-map", "node-map"})
+			tgtKind := core.Pick(r, []string{"refstore", "refstore", "reflect-map", "node-map", "reflect-struct", "reflect-struct-ptr", "node-struct-ptr"})
 			init := gen.GenBody(r, dc.kids, 40+r.Intn(55), o)
 			locs := []editLoc{{"", dc.kids, init, "root", 0}}
 			findLocs(dc.kids, init, "", 0, &locs)
@@ -125,8 +126,17 @@ func C18(c *core.Ctx) {
 			initLocBody := gen.Clone(loc.body)
 			var root node.Node
 			var tgtMap map[string]interface{}
+			var tgtStruct reflect.Value
 			tree := init
-			if tgtKind == "refstore" {
+			if strings.Contains(tgtKind, "-struct") {
+				so := c03structOpts(tgtKind, r)
+				tgtStruct = gen.ToStruct(dc.kids, tree, gen.StructType(dc.kids, 0, so), so)
+				if strings.HasPrefix(tgtKind, "reflect-") {
+					root = nodeutil.ReflectChild(tgtStruct.Interface())
+				} else {
+					root = &nodeutil.Node{Object: tgtStruct.Interface()}
+				}
+			} else if tgtKind == "refstore" {
 				root = refstore.NewBody(nil, dc.kids, tree, "")
 			} else if tgtKind == "reflect-map" {
 				tgtMap = gen.ToMap(dc.kids, tree)
@@ -178,6 +188,22 @@ func C18(c *core.Ctx) {
 						keepEntryKeys(dc.kids, loc, doc)
 					}
 					op = c18op{kind: core.Pick(r, []string{"U", "U", "I", "P"}), doc: doc}
+					if op.kind == "U" && r.Chance(25) {
+						// one payload naming a key twice: the second mention merges into the entry the first one made
+						for i, s := range loc.kids {
+							if s.Kind == "list" && len(doc[i].Rows) > 0 {
+								row := core.Pick(r, doc[i].Rows)
+								nb := gen.GenBody(r, s.Kids, 70, o)
+								for j := 0; j < s.NKeys; j++ {
+									kv := row.Key[j]
+									nb[j] = &gen.DNode{Leaf: &kv}
+								}
+								doc[i].Rows = append(doc[i].Rows, &gen.DRow{Key: append([]string{}, row.Key...), Kids: nb})
+								c.Count("payload", "key named twice")
+								break
+							}
+						}
+					}
 				case choice < 50:
 					op = c18op{kind: "DC", i: core.Pick(r, structural)}
 				case choice < 80:
@@ -290,6 +316,8 @@ func C18(c *core.Ctx) {
 				gen.CompoundInMap = 0
 				if tgtKind == "refstore" {
 					after = tree
+				} else if tgtStruct.IsValid() {
+					after = gen.FromStruct(dc.kids, tgtStruct, 0)
 				} else {
 					after = gen.FromMap(dc.kids, tgtMap, &unord)
 				}
